@@ -47,7 +47,7 @@ def plan(tier):
 
 
 def ncases(tier):
-    return 500 if tier == "quick" else 8000
+    return 1500 if tier == "quick" else 8000
 
 
 def gen_single(rng, nflows):
